@@ -465,8 +465,15 @@ func c12Sizes(w *World, r *Report) {
 		}
 		nuse := 0
 		bad := ""
+		// parameters of helpers that receive the client-supplied size (filled below, to a fixpoint)
+		derivedParams := map[*ssa.Parameter]bool{}
 		derivedIn := func(fn *ssa.Function) map[ssa.Value]bool {
 			derived := map[ssa.Value]bool{}
+			for _, p := range fn.Params {
+				if derivedParams[p] {
+					derived[p] = true
+				}
+			}
 			changed := true
 			for changed {
 				changed = false
@@ -531,52 +538,22 @@ func c12Sizes(w *World, r *Report) {
 					}
 				}
 				npaths++
-				lo, up := false, false
+				lo, up := boundsFromFacts(e.State.Facts, derived)
+				// a predicate helper applied to the size (or to the optional field holding it)
 				for v, truth := range e.State.Facts {
-					bo, ok := v.(*ssa.BinOp)
+					call, ok := v.(*ssa.Call)
 					if !ok {
 						continue
 					}
-					var c int64
-					var op token.Token
-					if derived[bo.X] {
-						cv, isC := constIntVal(bo.Y)
-						if !isC {
-							continue
-						}
-						c, op = cv, bo.Op
-					} else if derived[bo.Y] {
-						cv, isC := constIntVal(bo.X)
-						if !isC {
-							continue
-						}
-						c = cv
-						switch bo.Op {
-						case token.LSS:
-							op = token.GTR
-						case token.GTR:
-							op = token.LSS
-						case token.LEQ:
-							op = token.GEQ
-						case token.GEQ:
-							op = token.LEQ
-						default:
-							op = bo.Op
-						}
-					} else {
+					h := call.Call.StaticCallee()
+					if h == nil || !inModule(h) || len(h.Blocks) == 0 {
 						continue
 					}
-					switch {
-					case (op == token.GTR || op == token.GEQ) && !truth:
-						up = true
-					case (op == token.LSS || op == token.LEQ) && truth:
-						up = true
-					case (op == token.GTR && truth && c >= 0) || (op == token.GEQ && truth && c >= 1):
-						lo = true
-					case (op == token.LSS && !truth && c >= 1) || (op == token.LEQ && !truth && c >= 0):
-						lo = true
-					case op == token.EQL && !truth && c == 0, op == token.NEQ && truth && c == 0:
-						lo = true
+					for i, a := range call.Call.Args {
+						if derived[a] || isFieldPtrLoad(a) {
+							l2, u2 := predicateBounds(h, i, truth)
+							lo, up = lo || l2, up || u2
+						}
 					}
 				}
 				if !lo {
@@ -631,6 +608,28 @@ func c12Sizes(w *World, r *Report) {
 				upper = upper || cup
 			}
 			return
+		}
+		for round := 0; round < 3; round++ {
+			for _, fn := range dnsPkgFuncs(w) {
+				if fn.Pkg != nil && strings.HasSuffix(fn.Pkg.Pkg.Path(), "/commands") {
+					continue
+				}
+				derived := derivedIn(fn)
+				if len(derived) == 0 {
+					continue
+				}
+				for _, c := range callsIn(fn) {
+					h := c.Common().StaticCallee()
+					if h == nil || !inModule(h) || len(h.Blocks) == 0 {
+						continue
+					}
+					for i, a := range c.Common().Args {
+						if derived[a] && i < len(h.Params) && isIntType(h.Params[i].Type()) {
+							derivedParams[h.Params[i]] = true
+						}
+					}
+				}
+			}
 		}
 		for _, fn := range dnsPkgFuncs(w) {
 			if fn.Pkg != nil && strings.HasSuffix(fn.Pkg.Pkg.Path(), "/commands") {
@@ -747,4 +746,138 @@ func c12ErrorAnswerIsAnError(w *World, r *Report) {
 		return
 	}
 	r.Check(bad == "" && nsucc > 0, "R12.9", key, w.Pos(fn.Pos()), fmt.Sprintf("%d possibly-successful return path(s), each after a non-nil store into Err", nsucc), bad)
+}
+
+// boundsFromFacts: do the branch facts of a path establish a constant positive lower bound / a constant upper
+// bound on one of the `derived` values?
+func boundsFromFacts(facts map[ssa.Value]bool, derived map[ssa.Value]bool) (lo, up bool) {
+	for v, truth := range facts {
+		bo, ok := v.(*ssa.BinOp)
+		if !ok {
+			continue
+		}
+		var c int64
+		var op token.Token
+		if derived[bo.X] {
+			cv, isC := constIntVal(bo.Y)
+			if !isC {
+				continue
+			}
+			c, op = cv, bo.Op
+		} else if derived[bo.Y] {
+			cv, isC := constIntVal(bo.X)
+			if !isC {
+				continue
+			}
+			c = cv
+			switch bo.Op {
+			case token.LSS:
+				op = token.GTR
+			case token.GTR:
+				op = token.LSS
+			case token.LEQ:
+				op = token.GEQ
+			case token.GEQ:
+				op = token.LEQ
+			default:
+				op = bo.Op
+			}
+		} else {
+			continue
+		}
+		switch {
+		case (op == token.GTR || op == token.GEQ) && !truth:
+			up = true
+		case (op == token.LSS || op == token.LEQ) && truth:
+			up = true
+		case (op == token.GTR && truth && c >= 0) || (op == token.GEQ && truth && c >= 1):
+			lo = true
+		case (op == token.LSS && !truth && c >= 1) || (op == token.LEQ && !truth && c >= 0):
+			lo = true
+		case op == token.EQL && !truth && c == 0, op == token.NEQ && truth && c == 0:
+			lo = true
+		}
+	}
+	return
+}
+
+// predicateBounds: summary of a boolean helper h applied to a size (parameter pidx: the integer itself or a
+// pointer to it). On every path of h that can return `truth` — except those on which the pointer is nil, i.e.
+// no size was supplied — which constant bounds on the size do the branch facts establish?
+func predicateBounds(h *ssa.Function, pidx int, truth bool) (lower, upper bool) {
+	if pidx >= len(h.Params) || h.Signature.Results().Len() != 1 {
+		return false, false
+	}
+	prm := h.Params[pidx]
+	derived := map[ssa.Value]bool{}
+	if isIntType(prm.Type()) {
+		derived[prm] = true
+	}
+	changed := true
+	for changed {
+		changed = false
+		allInstrs(h, func(in ssa.Instruction) {
+			v, ok := in.(ssa.Value)
+			if !ok || derived[v] {
+				return
+			}
+			switch x := in.(type) {
+			case *ssa.UnOp:
+				if x.Op == token.MUL && (x.X == ssa.Value(prm) || derived[x.X]) {
+					derived[v], changed = true, true
+				}
+			case *ssa.Convert:
+				if derived[x.X] {
+					derived[v], changed = true, true
+				}
+			case *ssa.Phi:
+				for _, e := range x.Edges {
+					if derived[e] {
+						derived[v], changed = true, true
+					}
+				}
+			}
+		})
+	}
+	lower, upper = true, true
+	n := 0
+	okp := enumPaths(h, nil, nil, nil, func(e pathExit) {
+		ret, isRet := e.Last.(*ssa.Return)
+		if !isRet {
+			return
+		}
+		rv := e.State.Resolve(ret.Results[0])
+		facts := e.State.Facts
+		if b, isC := constBool(rv); isC {
+			if b != truth {
+				return
+			}
+		} else if tv, known := e.State.Truth(rv); known {
+			if tv != truth {
+				return
+			}
+		} else {
+			facts = map[ssa.Value]bool{rv: truth}
+			for k, x := range e.State.Facts {
+				facts[k] = x
+			}
+		}
+		for v, t := range facts {
+			if x, eqNil, ok := nilTest(v); ok && t == eqNil && x == ssa.Value(prm) {
+				return // no size supplied
+			}
+		}
+		n++
+		lo, up := boundsFromFacts(facts, derived)
+		if !lo {
+			lower = false
+		}
+		if !up {
+			upper = false
+		}
+	})
+	if !okp || n == 0 {
+		return false, false
+	}
+	return
 }
